@@ -10,6 +10,8 @@ def _(self, node, expected_type):
     properties('C02', 'C01', 'C08', 'C17')
     requires(is_scalar_type(expected_type))
     result_sort('RecResult')
+    ensures(cardmany(result[0])
+            or forall_in(result[0], lambda r: wf_ty(r)))
     ensures(forall_in(result[0], lambda r: shape_ok(node, r)))
     # built-ins are recognised by the exact YAML tag, on scalar nodes only
     ensures(result[0] == (tyset_of(expected_type)
@@ -27,6 +29,8 @@ def _(self, node, expected_type):
     properties('C02', 'C01', 'C08', 'C17')
     requires(expected_type == T_PATH)
     result_sort('RecResult')
+    ensures(cardmany(result[0])
+            or forall_in(result[0], lambda r: wf_ty(r)))
     ensures(forall_in(result[0], lambda r: shape_ok(node, r)))
     ensures(result[0] == (tyset_of(T_PATH)
                           if node.kind == SCALAR and node.tag == STR_TAG
@@ -41,6 +45,8 @@ def _(self, node, expected_type):
     requires(wf_ty(expected_type))
     result_sort('RecResult')
     ensures(forall_in(result[0], lambda r: concrete_ok(r)))
+    ensures(cardmany(result[0])
+            or forall_in(result[0], lambda r: wf_ty(r)))
     ensures(forall_in(result[0], lambda r: shape_ok(node, r)))
     ensures(result[0] == rec(node, expected_type))
 
@@ -51,6 +57,8 @@ def _(self, node, expected_type):
     requires(ty_is_union(expected_type) and wf_ty(expected_type))
     result_sort('RecResult')
     ensures(forall_in(result[0], lambda r: concrete_ok(r)))
+    ensures(cardmany(result[0])
+            or forall_in(result[0], lambda r: wf_ty(r)))
     ensures(forall_in(result[0], lambda r: shape_ok(node, r)))
     sort('causes', 'Seq[RErr]')
     sort('recognized_types', 'Set[Ty]')
@@ -60,7 +68,9 @@ def _(self, node, expected_type):
               and recognized_types == rec_union(
                   node, ty_members(expected_type), _i)
               and forall_in(recognized_types, lambda r: shape_ok(node, r))
-              and forall_in(recognized_types, lambda r: concrete_ok(r)))
+              and forall_in(recognized_types, lambda r: concrete_ok(r))
+              and (cardmany(recognized_types)
+                   or forall_in(recognized_types, lambda r: wf_ty(r))))
 
 
 @contract("yatiml/recognizer.py::Recognizer.__recognize_list")
@@ -68,6 +78,8 @@ def _(self, node, expected_type):
     properties('C02', 'C01', 'C13')
     requires(ty_is_list(expected_type) and wf_ty(expected_type))
     result_sort('RecResult')
+    ensures(cardmany(result[0])
+            or forall_in(result[0], lambda r: wf_ty(r)))
     ensures(forall_in(result[0], lambda r: shape_ok(node, r)))
     ensures(result[0] == rec_list(node, expected_type))
     invariant(0, lambda _i: _i <= len(node.items) and first_bad(
@@ -79,6 +91,8 @@ def _(self, node, expected_type):
     properties('C02', 'C01', 'C13')
     requires(ty_is_dict(expected_type) and wf_ty(expected_type))
     result_sort('RecResult')
+    ensures(cardmany(result[0])
+            or forall_in(result[0], lambda r: wf_ty(r)))
     ensures(forall_in(result[0], lambda r: shape_ok(node, r)))
     ensures(result[0] == rec_dict(node, expected_type))
     invariant(0, lambda _i: _i <= len(node.pairs) and first_bad_pair(
@@ -89,7 +103,10 @@ def _(self, node, expected_type):
 def _(self, node, expected_type):
     properties('C02', 'C03', 'C10', 'C08')
     requires(reg_has(expected_type) and wf_ty(expected_type))
+    requires(not is_scalar_type(expected_type))
     result_sort('RecResult')
+    ensures(cardmany(result[0])
+            or forall_in(result[0], lambda r: wf_ty(r)))
     ensures(forall_in(result[0], lambda r: shape_ok(node, r)))
     ensures(result[0] == (tyset_of(expected_type)
                           if matches1(node, expected_type)
@@ -104,8 +121,11 @@ def _(self, node, expected_type):
 def _(self, node, expected_type, top):
     properties('C03', 'C02', 'C13')
     requires(reg_has(expected_type) and wf_ty(expected_type))
+    requires(not is_scalar_type(expected_type))
     result_sort('RecResult')
     ensures(forall_in(result[0], lambda r: concrete_ok(r)))
+    ensures(cardmany(result[0])
+            or forall_in(result[0], lambda r: wf_ty(r)))
     ensures(forall_in(result[0], lambda r: shape_ok(node, r)))
     sort('causes', 'Seq[RErr]')
     sort('recognized_subclasses', 'Set[Ty]')
@@ -116,4 +136,6 @@ def _(self, node, expected_type, top):
               and forall_in(recognized_subclasses,
                             lambda r: shape_ok(node, r))
               and forall_in(recognized_subclasses,
-                            lambda r: concrete_ok(r)))
+                            lambda r: concrete_ok(r))
+              and (cardmany(recognized_subclasses)
+                   or forall_in(recognized_subclasses, lambda r: wf_ty(r))))
